@@ -190,24 +190,16 @@ func encodeAndSplitGSM7Packed(content string, frameKey byte) ([][]byte, datacodi
 	}
 
 	perMsgLength := datacoding.SplitBy153
-	msgCount := ceil(len(contentBytes), perMsgLength)
+	// Count the parts first: keeping an escape pair together moves a boundary back by one septet,
+	// which shifts every later part and can require one part more than ceil(len/153).
+	msgCount := 0
+	for begin := 0; begin < len(contentBytes); msgCount++ {
+		begin = gsm7PartEnd(contentBytes, begin, perMsgLength)
+	}
 	res := make([][]byte, 0, msgCount)
 
-	begin, end := 0, perMsgLength
-	for idx := 0; idx < msgCount; idx++ {
-		if end > len(contentBytes) {
-			end = len(contentBytes)
-		}
-		if begin >= end {
-			continue
-		}
-
-		// Boundary case: When the last byte of a non-final part happens to be the indicator for an extended character,
-		// cutting at this point would split these two bytes.
-		// To avoid this scenario, the preceding part should pack one byte less, ensuring that 0x1b is placed within the next byte.
-		if idx != msgCount-1 && contentBytes[end-1] == gsm7encoding.EscapeSequence {
-			end--
-		}
+	for idx, begin := 0, 0; begin < len(contentBytes); idx++ {
+		end := gsm7PartEnd(contentBytes, begin, perMsgLength)
 
 		// append UDHI
 		contentByte := make([]byte, 0, (end-begin)+datacoding.UDHILength)
@@ -225,10 +217,23 @@ func encodeAndSplitGSM7Packed(content string, frameKey byte) ([][]byte, datacodi
 		res = append(res, contentByte)
 
 		begin = end
-		end += perMsgLength
 	}
 
 	return res, dataCoding, nil
+}
+
+// gsm7PartEnd returns where the part starting at begin ends: after at most perMsgLength septets,
+// one less when the last septet of a non-final part would be the escape indicator of a two-septet
+// character (cutting there would split the pair; 0x1b moves to the next part instead).
+func gsm7PartEnd(septets []byte, begin, perMsgLength int) int {
+	end := begin + perMsgLength
+	if end >= len(septets) {
+		return len(septets)
+	}
+	if septets[end-1] == gsm7encoding.EscapeSequence {
+		end--
+	}
+	return end
 }
 
 // splitWithUDHI splits the long message according to perMsgLength and adds a 6-byte header for concatenated SMS.
